@@ -12,4 +12,16 @@ mod.__file__ = os.path.abspath("check")
 exec(compile(src.replace('if __name__ == "__main__":', 'if False:'), "check", "exec"), mod.__dict__)
 mod.ensure_ninja(["all"])
 print("hooks tree ready:", mod.BUILD)
+# the sanitized tree of the libFuzzer units (only the targets their specs name), so that the first quick run of
+# C13 / C31 / C35 / C54 does not pay for it
+import glob, json
+targets = []
+for f in sorted(glob.glob("engine/specs/C*.json")):
+    for u in json.load(open(f)).get("units", []):
+        for t in u.get("ninja_asan", []):
+            if t not in targets:
+                targets.append(t)
+if targets:
+    mod.ensure_ninja(targets, "asan")
+    print("asan tree ready:", mod.TREES["asan"][0], " ".join(targets))
 PY
